@@ -1,11 +1,12 @@
 Require Extraction.
 Require Import ExtrOcamlBasic.
 From GoPdf.Base Require Import WireAnchor.
-From GoPdf.C14 Require Import SimpleEnc CidEnc Widths.
+From GoPdf.C14 Require Import SimpleEnc CidEnc Widths Encoding.
 Separate Extraction wire_anchor
   init encode get_code get codes cid_of nused default_width s_err
   tounicode_omit tounicode_all reader_text writer_tu writer_tu_prefix writer_text
   uinit uencode uget_code uget ucodes u_info valid_cs
-  finit fencode fget_code fget id_all id_rev id_split
+  finit fencode fget_code fget id_all id_rev id_split tbl_all tbl_rev tbl_all_sound
+  as_pdf_simple extract_simple as_pdf_type3 extract_type3 simple_encoding
   simple_first_last simple_widths read_simple
   encode_w decode_w last_assign cid_width.
